@@ -400,7 +400,7 @@ def check_c2s(tree, nf, envs, variant, res):
     res["done"].add(("c2s", variant, tree))
 
 
-class TreeTimeout(Exception):
+class TreeTimeout(BaseException):      # BaseException: must not be swallowed by "except Exception"
     pass
 
 
